@@ -523,9 +523,16 @@ def cli_config_mapping(prog, chk):
             v = f["v"]
             name = f["name"]
             neg = False
-            while isinstance(v, dict) and v.get("k") in ("Unary",) and v.get("op") == "Not":
-                neg = not neg
-                v = v["x"]
+            for _ in range(4):
+                if isinstance(v, dict) and v.get("k") in ("Unary",) and v.get("op") == "Not":
+                    neg = not neg
+                    v = v["x"]
+                elif isinstance(v, dict) and v.get("k") == "MethodCall" and v.get("name") in ("clone", "to_owned", "to_string", "cloned") and not v.get("args"):
+                    v = v["recv"]  # a copy of the option's value (the struct is built from `&self` / `&args`)
+                elif isinstance(v, dict) and v.get("k") in ("AddrOf",) or (isinstance(v, dict) and v.get("k") == "Unary" and v.get("op") == "Deref"):
+                    v = v.get("x") or v.get("e")
+                else:
+                    break
             pure = isinstance(v, dict) and v.get("k") == "Field" and isinstance(v.get("x"), dict) and v["x"].get("k") == "Path" and "local" in (v["x"].get("res") or {})
             src = v.get("name") if pure else None
             if name in CLI_FIELD_OK:
